@@ -1076,8 +1076,8 @@ def plan(tier: str) -> dict:
         # (3 clients x 2 messages WITH a crash is 23.1 M states / 9 min on 16 idle cores: run by hand once, passed)
         mc += [("ascoded-3c2m", AS_CODED, dict(nclients=3, nmsgs=2, replays=1, crashes=0, notfound=1, symmetry=True),
                 SAFETY_K, ACTIONP_K, 8),
-               ("ascoded-2c2m-c2r2", AS_CODED, dict(nclients=2, nmsgs=2, replays=2, crashes=2, notfound=1, delayed=True,
-                                                    symmetry=True), SAFETY_K, ACTIONP_K, 5),
+               ("ascoded-2c2m-c2", AS_CODED, dict(nclients=2, nmsgs=2, replays=1, crashes=2, notfound=1, symmetry=True),
+                SAFETY_K, ACTIONP_K, 5),
                ("ascoded-3c1m-q3", AS_CODED, dict(nclients=3, nmsgs=1, replays=2, crashes=1, notfound=1, qmax=3,
                                                   delayed=True, symmetry=True), SAFETY_K, ACTIONP_K, 4),
                ("intended-2c2m-fifo-r2", INTENDED, dict(nclients=2, nmsgs=2, replays=2, crashes=2, notfound=1, fifo=True,
@@ -1398,10 +1398,11 @@ def run(pid: str, tier: str, seed: int) -> int:
                 if r.violated:
                     nviol += _model_violation(rep, pool, name, r, x, switches)
                 elif r.errors or r.rc != 0:
-                    rep.machinery_failure(f"TLC failed on {name}: " + "\n".join(r.errors[:3]) + r.out[-800:])
+                    rep.machinery_failure(f"TLC did not finish {name} (rc={r.rc}, {r.distinct} states, {r.wall:.0f} s): "
+                                          + "\n".join(r.errors[:3]) + r.out[-400:])
                 else:
                     dead = [a for a in ACTIONS if ac.get(a, 0) == 0 and not (a == "LeaseLapse" and sw is INTENDED)]
-                    if name in ("ascoded-3c1m-q3", "ascoded-2c2m-c2r2", "intended-3c2m") and dead:   # vacuity
+                    if name in ("ascoded-3c1m-q3", "ascoded-2c2m-c2", "intended-3c2m") and dead:   # vacuity
                         rep.machinery_failure(f"vacuity: actions never taken in {name}: {dead}")
             elif kind == "live":
                 _, r = fut.result()
